@@ -1,7 +1,7 @@
 """Generators of recorder *history* cases (see recorder_sim.py for the format).  Every random choice comes from `rng`."""
-from harness.rvals import rand_value
+from harness.rvals import rand_value, aliased_value, no_objects
 
-EXCS = ['ValueError', 'KeyError', 'RuntimeError', 'CustomError']
+EXCS = ['ValueError', 'KeyError', 'RuntimeError', 'CustomError', 'AssertionError', 'NotImplementedError']
 INTERRUPTS = ['KeyboardInterrupt', 'SystemExit', 'GeneratorExit']
 ALIASES_IN = ['fetch', 'load', 'cfg', 'fetch']          # the same alias may be shared by two functions
 ALIASES_OUT = ['send', 'store', 'send']
@@ -80,7 +80,10 @@ def gen_in_site(rng, name, idx, opts):
     if opts.get('body_effects') and rng.random() < 0.25:
         body.append({'op': rng.choice(['force', 'discard', 'rec'] if opts.get('faults') else ['force', 'rec']),
                      'k': 'note', 'e': const({'s': 'from-body'})})
-    result = {'t': [const({'s': 'r:' + site['alias']})] + keyparts + ([const(rand_value(rng, 2))] if rng.random() < 0.5 else [])}
+    extra = [const(rand_value(rng, 2))] if rng.random() < 0.5 else []
+    if opts.get('aliasing') and rng.random() < 0.5:
+        extra = [const(aliased_value(rng))]           # a value with a back reference / one object reachable twice
+    result = {'t': [const({'s': 'r:' + site['alias']})] + keyparts + extra}
     if keyparts and rng.random() < 0.3:
         # raises for one particular captured value, returns otherwise
         body.append({'op': 'ifeq', 'x': keyparts[0]['v'], 'e': const({'i': '1'}),
@@ -254,4 +257,10 @@ def gen_history(rng, opts):
             if created_by(run, classes):
                 scripts.append((cname, script))
                 created += 1
-    return {'cassette': rng.choice(opts.get('cassettes', ['memory'])), 'classes': classes, 'sites': sites, 'runs': runs}
+    case = {'cassette': rng.choice(opts.get('cassettes', ['memory'])), 'classes': classes, 'sites': sites, 'runs': runs}
+    if opts.get('aliasing'):
+        # values with internal aliasing: keep objects out of the same history (an object written before a reference
+        # shifts the serializer's reference numbers, known finding K7) and store value by value (in-memory cassette)
+        case = no_objects(case)
+        case['cassette'] = 'memory'
+    return case
